@@ -304,7 +304,7 @@ static std::string step(const Toks& t0)
 		else if (k == "u") v = (unsigned)num(t[3]);
 		else if (k == "l") v = (Long)num(t[3]);
 		else if (k == "L") v = (long)num(t[3]);
-		else if (k == "UL") v = (unsigned long)num(t[3]);
+		else if (k == "UL") v = (unsigned long)unum(t[3]);
 		else if (k == "Q") v = (ULong)unum(t[3]);
 		else if (k == "d") v = litD(t, 3);
 		else if (k == "f") v = (float)litD(t, 3);
@@ -436,7 +436,7 @@ static std::string step(const Toks& t0)
 		else if (k == "u") v << (unsigned)num(t[3]);
 		else if (k == "l") v << (Long)num(t[3]);
 		else if (k == "L") v << (long)num(t[3]);
-		else if (k == "UL") v << (unsigned long)num(t[3]);
+		else if (k == "UL") v << (unsigned long)unum(t[3]);
 		else if (k == "Q") v << (ULong)unum(t[3]);
 		else if (k == "d") v << litD(t, 3);
 		else if (k == "f") v << (float)litD(t, 3);
@@ -638,7 +638,7 @@ static std::string step(const Toks& t0)
 		else if (c == "u") replaceSlot(k, NEWVAR((unsigned)num(t[3])));
 		else if (c == "l") replaceSlot(k, NEWVAR((Long)num(t[3])));
 		else if (c == "L") replaceSlot(k, NEWVAR((long)num(t[3])));
-		else if (c == "UL") replaceSlot(k, NEWVAR((unsigned long)num(t[3])));
+		else if (c == "UL") replaceSlot(k, NEWVAR((unsigned long)unum(t[3])));
 		else if (c == "Q") replaceSlot(k, NEWVAR((ULong)unum(t[3])));
 		else if (c == "b") replaceSlot(k, NEWVAR(t[3] == "1"));
 		else if (c == "s") { Exact e(unhex(t[3])); replaceSlot(k, NEWVAR(String(e.p, (int)e.n))); }
